@@ -194,6 +194,15 @@ def check_dataset(t: Tally, defn, doc, files, stream_pkts, use_raw, case, string
 
 
 def _task(task):
+    """Several definitions per task, one after the other in one process: the parameter names (F_0, B_CNT ...) are the same in all of
+    them while their types differ, so anything create_dataset remembers from an earlier definition shows up in the next one."""
+    t = Tally()
+    for ki in task["kinds"]:
+        t.merge(_task_one({**task, "kind": ki}))
+    return t
+
+
+def _task_one(task):
     t = Tally()
     ki = task["kind"]
     doc = make_doc(ki)
@@ -277,7 +286,9 @@ def _task(task):
 
 def run(ctx):
     ks = ["intwidths"] + [i for i, k in enumerate(c01.pal()) if k.name != "u72"]
-    tasks = [{"kind": k, "work": ctx.work, "max_len": 3 if ctx.quick else 4} for k in ks]
+    # interleave unlike kinds (ints, floats, strings, binaries ...) within one task
+    groups = [ks[i::24] for i in range(24)]
+    tasks = [{"kinds": g, "work": ctx.work, "max_len": 3 if ctx.quick else 4} for g in groups if g]
     tally = fan_out(_task, tasks, jobs=ctx.jobs, seed=ctx.seed)
     coverage = {
         "programs": tally.programs,
@@ -294,7 +305,7 @@ def run(ctx):
 
 def replay(case):
     import os as _os
-    t = _task({"kind": case["kind"], "work": _os.path.join(_os.path.dirname(_os.path.dirname(_os.path.dirname(_os.path.abspath(__file__)))), ".work"), "max_len": 3})
+    t = _task_one({"kind": case["kind"], "work": _os.path.join(_os.path.dirname(_os.path.dirname(_os.path.dirname(_os.path.abspath(__file__)))), ".work"), "max_len": 3})
     for v in t.violations:
         if v["case"].get("packets") == case.get("packets") and v["case"].get("use_raw_values") == case.get("use_raw_values") \
                 and v["case"].get("variable") == case.get("variable"):
